@@ -384,6 +384,42 @@ func hllCase(c *Ctx, m uint64, redis bool) {
 		}
 		c.branch("merge-no-sharing")
 	}
+	// a sketch that has been queried and is then overwritten by ReadFrom / Import answers for what
+	// it now holds (not for what it held when it was last asked)
+	if !redis {
+		if hm, ok := Y.(hllMem); ok {
+			for variant := 0; variant < 2; variant++ {
+				tm := m
+				if tm < 128 {
+					tm = 128 // smaller sketches cannot take every update (finding D4)
+				}
+				tgt, _ := gostatix.NewHyperLogLog([]uint64{tm, 2 * tm}[variant])
+				safely(func() { tgt.Update([]byte("previous tenant")); tgt.Update([]byte("another one")) })
+				for _, fl := range hllFlags() {
+					tgt.Count(fl[0], fl[1])
+				}
+				var lerr error
+				if variant == 0 {
+					var b2 bytes.Buffer
+					if _, lerr = hm.h.WriteTo(&b2); lerr == nil {
+						_, lerr = tgt.ReadFrom(&b2)
+					}
+				} else if doc, e := hm.h.Export(); e == nil {
+					lerr = tgt.Import(doc)
+				}
+				if lerr != nil {
+					continue
+				}
+				for _, fl := range hllFlags() {
+					if a, b := hm.h.Count(fl[0], fl[1]), tgt.Count(fl[0], fl[1]); a != b {
+						c.fail([]string{"C05", "C06", "C11", "C10"}, "hll-count-stale-after-load", fmt.Sprintf("%s: a sketch that had been queried and was then loaded (variant %d: 0 = ReadFrom, 1 = Import) counts %d, the sketch it was loaded from %d", cfg, variant, b, a), replay)
+						return
+					}
+				}
+			}
+			c.branch("count-after-load")
+		}
+	}
 	// a sketch restored from its binary image is as good a Merge argument as the one written
 	if !redis {
 		if hm, ok := Y.(hllMem); ok {
